@@ -90,5 +90,26 @@ Definition operand_ok (opc a b : Z) : Prop :=
   in_ty (if long then TJ else TI) a /\ in_ty (if long && negb shift then TJ else TI) b /\
   ((208 <=? opc) && (opc <=? 215) = true -> - 32768 <= b < 32768) /\ ((216 <=? opc) && (opc <=? 226) = true -> - 128 <= b < 128).
 
+(* ---- conditional branches: what the decompiler prints (a OP b, a OP 0) and when the instruction branches ---- *)
+Inductive centry := Cond (op : list Z) | CondZ (op : list Z).
+Definition java_cmp (op : list Z) (a b : Z) : result bool :=
+  if str_eqb op [61; 61] then Ok (a =? b)                                   (* == *)
+  else if str_eqb op [33; 61] then Ok (negb (a =? b))                       (* != *)
+  else if str_eqb op [60] then Ok (a <? b)                                  (* <  *)
+  else if str_eqb op [62; 61] then Ok (b <=? a)                             (* >= *)
+  else if str_eqb op [62] then Ok (b <? a)                                  (* >  *)
+  else if str_eqb op [60; 61] then Ok (a <=? b)                             (* <= *)
+  else Err TypeError.
+Definition java_cond (e : centry) (a b : Z) : result bool := match e with Cond op => java_cmp op a b | CondZ op => java_cmp op a 0 end.
+(* if-eq .. if-le (0x32-0x37) on two registers, if-eqz .. if-lez (0x38-0x3d) on one: is the branch taken *)
+Definition test (k : Z) (a b : Z) : result bool :=
+  if k =? 0 then Ok (a =? b) else if k =? 1 then Ok (negb (a =? b)) else if k =? 2 then Ok (a <? b)
+  else if k =? 3 then Ok (b <=? a) else if k =? 4 then Ok (b <? a) else if k =? 5 then Ok (a <=? b) else Err TypeError.
+Definition dalvik_branch (opc a b : Z) : result bool :=
+  if (50 <=? opc) && (opc <=? 55) then test (opc - 50) a b
+  else if (56 <=? opc) && (opc <=? 61) then test (opc - 56) a 0
+  else Err TypeError.
+
 Definition vr (r : result Z) : val := vres VZ r.
+Definition obs_branch (x : Z * (Z * Z)) : val := let '(opc, (a, b)) := x in vres (fun t : bool => VZ (if t then 1 else 0)) (dalvik_branch opc a b).
 Definition obs_op (x : Z * (Z * Z)) : val := let '(opc, (a, b)) := x in vr (dalvik opc a b).
